@@ -35,6 +35,7 @@ def _summary(name, unit, col, program, t0, crash, frontier=None):
         'solver_seconds': round(col.solver_seconds, 3), 'wall_s': round(time.time() - t0, 3),
         'dropped_calls': sorted(set(col.dropped_calls)), 'assumed_contracts': sorted(col.assumed),
         'crash': crash, 'files': files, 'frontier': frontier,
+        'call_sites': [[list(k), sorted(v)] for k, v in col.call_sites.items()],
     }
 
 
@@ -94,6 +95,16 @@ def _merge(parts):
         files.update(p['files'])
     out['files'] = files
     out['shards'] = len(parts) - 1
+    sites = {}
+    for p in parts:
+        for k, v in p.get('call_sites', []):
+            sites.setdefault(tuple(k), set()).update(v)
+    out['call_sites'] = [[list(k), sorted(v)] for k, v in sites.items()]
+    for k, v in sites.items():
+        if not v:
+            out['incomplete'] = sorted(set(out['incomplete']) | {
+                '%s: every outcome of the assumed contract of %s is unsatisfiable at call %r '
+                '(vacuity guard)' % (k[0], k[1], k[2])})
     return out
 
 
